@@ -234,3 +234,91 @@ package tcell
 //@           invariant [rest] forall k int :: 0 <= k && k < len(cb.cells) && !inWide(cb, x, y, k, i) ==> cb.cells[k] == old(cb.cells[k])
 //@           decreases old(cb.cells[y*cb.w+x].width) - i
 //@   modifies cb.cells[*]
+
+//@ func (*CellBuffer).Resize
+//@   arith math
+//@   requires cbwf(cb) && w >= 0 && h >= 0
+//@   ensures [same] old(cb.w) == w && old(cb.h) == h ==> shapeKept(cb, old(cb.w), old(cb.h), old(cb.cells))
+//@   ensures [shape] cb.w == w && cb.h == h && len(cb.cells) == w*h
+//@   ensures [fresh] !(old(cb.w) == w && old(cb.h) == h) ==> fresh(cb.cells)
+//@   ensures [dirty] !(old(cb.w) == w && old(cb.h) == h) ==> forall k int :: 0 <= k && k < len(cb.cells) ==> cb.cells[k].lastMain == 0 && !cb.cells[k].lock
+//@   ensures [overlap] !(old(cb.w) == w && old(cb.h) == h) ==> forall xx int, yy int :: 0 <= xx && xx < w && xx < old(cb.w) && 0 <= yy && yy < h && yy < old(cb.h) ==>
+//@              sameCurr(cb.cells[yy*w+xx], old(cb.cells[yy*cb.w+xx]))
+//@   loop 1: invariant [y] 0 <= y && len(newc) == w*h && fresh(newc) && !isNil(newc) && shapeKept(cb, old(cb.w), old(cb.h), old(cb.cells)) && !(cb.w == w && cb.h == h)
+//@           invariant [lm] forall k int :: 0 <= k && k < len(newc) ==> newc[k].lastMain == 0 && !newc[k].lock
+//@           invariant [rows] forall xx int, yy int :: 0 <= xx && xx < w && xx < cb.w && 0 <= yy && yy < y && yy < cb.h ==> sameCurr(newc[yy*w+xx], cb.cells[yy*cb.w+xx])
+//@           decreases h - y
+//@   loop 1.1: invariant [x] 0 <= x && 0 <= y && y < h && y < cb.h && len(newc) == w*h && fresh(newc) && !isNil(newc) && shapeKept(cb, old(cb.w), old(cb.h), old(cb.cells)) && !(cb.w == w && cb.h == h)
+//@           invariant [lm] forall k int :: 0 <= k && k < len(newc) ==> newc[k].lastMain == 0 && !newc[k].lock
+//@           invariant [rows] forall xx int, yy int :: 0 <= xx && xx < w && xx < cb.w && 0 <= yy && yy < y && yy < cb.h ==> sameCurr(newc[yy*w+xx], cb.cells[yy*cb.w+xx])
+//@           invariant [row] forall xx int :: 0 <= xx && xx < x && xx < w && xx < cb.w ==> sameCurr(newc[y*w+xx], cb.cells[y*cb.w+xx])
+//@           decreases w - x
+//@   modifies cb.w, cb.h, cb.cells
+
+// ---------------------------------------------------------------------------
+// C12: mouse reports.  xterm "Button event tracking": low two bits 0/1/2 = button 1 / 2 (middle) / 3 (right),
+// 3 = release; +4 shift, +8 meta, +16 control, +32 motion, +64 wheel (64 up, 65 down).
+// tcell numbering: primary Button1, middle Button3, secondary (right) Button2.
+// ---------------------------------------------------------------------------
+
+//@ spec xbtn(b int) ButtonMask = b&64 != 0 ? (b&3 == 0 ? WheelUp : b&3 == 1 ? WheelDown : ButtonNone)
+//@                                         : (b&3 == 0 ? Button1 : b&3 == 1 ? Button3 : b&3 == 2 ? Button2 : ButtonNone)
+//@ spec xmod(b int) ModMask = (b&4 != 0 ? ModShift : ModNone) | (b&8 != 0 ? ModAlt : ModNone) | (b&16 != 0 ? ModCtrl : ModNone)
+//@ spec clampTo(v int, n int) int = v < 0 ? 0 : (v > n-1 ? n-1 : v)
+
+//@ func NewEventMouse
+//@   arith bv
+//@   ensures result != nil && result.x == x && result.y == y && result.btn == btn && result.mod == mod
+
+//@ func (*tScreen).clip
+//@   arith bv
+//@   requires t.cells.w >= 1 && t.cells.h >= 1
+//@   ensures [x] result0 == clampTo(x, t.cells.w)
+//@   ensures [y] result1 == clampTo(y, t.cells.h)
+//@   ensures [inside] 0 <= result0 && result0 < t.cells.w && 0 <= result1 && result1 < t.cells.h
+//@   modifies nothing
+
+//@ func (*tScreen).buildMouseEvent
+//@   arith bv
+//@   requires t.cells.w >= 1 && t.cells.h >= 1
+//@   ensures [button] btn&0x42 != 0x42 ==> result.btn == xbtn(btn)
+//@   ensures [mods] result.mod == xmod(btn)
+//@   ensures [pos] result.x == clampTo(x, t.cells.w) && result.y == clampTo(y, t.cells.h)
+//@   ensures [nonnil] result != nil
+//@   modifies nothing
+
+// Legacy X11 report: (ESC [ | 0x9b) M Cb Cx Cy with Cb = 32+code, Cx = 32+column, Cy = 32+row (1-based).
+//@ spec mouseAt(evs *[]Event, n int) *EventMouse = asptr((*evs)[n], "EventMouse")
+//@ pred bufwf(buf *bytes.Buffer) = 0 <= buf.off && buf.off <= len(buf.buf)
+
+//@ func (*tScreen).parseXtermMouse
+//@   arith bv
+//@   requires bufwf(buf) && t.cells.w >= 1 && t.cells.h >= 1 && buf != nil && evs != nil
+//@   let b = buf.buf[buf.off:]
+//@   let n0 = len(b) >= 1 && b[0] == 0x1b ? 6 : 5
+//@   ensures [complete7] result1 && b[0] == 0x1b ==> len(b) >= 6 && b[1] == '[' && b[2] == 'M' && buf.off == old(buf.off) + 6
+//@   ensures [complete8] result1 && b[0] != 0x1b ==> len(b) >= 5 && b[0] == 0x9b && b[1] == 'M' && buf.off == old(buf.off) + 5
+//@   ensures [found] len(b) >= 6 && b[0] == 0x1b && b[1] == '[' && b[2] == 'M' ==> result0 && result1
+//@   ensures [found8] len(b) >= 5 && b[0] == 0x9b && b[1] == 'M' ==> result0 && result1
+//@   ensures [partial] !result1 ==> buf.off == old(buf.off) && len(*evs) == old(len(*evs)) && t.buttondn == old(t.buttondn)
+//@   ensures [oneevent] result1 ==> len(*evs) == old(len(*evs)) + 1
+//@   ensures [pos7] result1 && b[0] == 0x1b ==> mouseAt(evs, old(len(*evs))).x == clampTo(int(b[4]) - 33, t.cells.w) && mouseAt(evs, old(len(*evs))).y == clampTo(int(b[5]) - 33, t.cells.h)
+//@   ensures [pos8] result1 && b[0] != 0x1b ==> mouseAt(evs, old(len(*evs))).x == clampTo(int(b[3]) - 33, t.cells.w) && mouseAt(evs, old(len(*evs))).y == clampTo(int(b[4]) - 33, t.cells.h)
+//@   ensures [mods7] result1 && b[0] == 0x1b ==> mouseAt(evs, old(len(*evs))).mod == xmod(int(b[3]) - 32)
+//@   ensures [mods8] result1 && b[0] != 0x1b ==> mouseAt(evs, old(len(*evs))).mod == xmod(int(b[2]) - 32)
+//@   ensures [button7] result1 && b[0] == 0x1b && (int(b[3]) - 32)&0x42 != 0x42 ==> mouseAt(evs, old(len(*evs))).btn == xbtn(int(b[3]) - 32)
+//@   ensures [button8] result1 && b[0] != 0x1b && (int(b[2]) - 32)&0x42 != 0x42 ==> mouseAt(evs, old(len(*evs))).btn == xbtn(int(b[2]) - 32)
+//@   loop 1: invariant [idx] -1 <= rangeindex && rangeindex < len(b) && 0 <= state && state <= 5 && buf.off == old(buf.off) && len(*evs) == old(len(*evs))
+//@           invariant [esc] rangeindex >= 0 && b[0] == 0x1b ==> state == rangeindex + 1
+//@           invariant [csi] rangeindex >= 0 && b[0] != 0x1b ==> b[0] == 0x9b && state == rangeindex + 2
+//@           invariant [start] rangeindex == -1 ==> state == 0
+//@           invariant [hdr7] state >= 2 && b[0] == 0x1b ==> b[1] == '['
+//@           invariant [hdr7m] state >= 3 && b[0] == 0x1b ==> b[2] == 'M'
+//@           invariant [hdr8m] state >= 3 && b[0] != 0x1b ==> b[1] == 'M'
+//@           invariant [btn7] state >= 4 && b[0] == 0x1b ==> btn == int(b[3]) - 32
+//@           invariant [btn8] state >= 4 && b[0] != 0x1b ==> btn == int(b[2]) - 32
+//@           invariant [x7] state >= 5 && b[0] == 0x1b ==> x == int(b[4]) - 33
+//@           invariant [x8] state >= 5 && b[0] != 0x1b ==> x == int(b[3]) - 33
+//@           decreases len(b) - rangeindex
+//@   loop 2: invariant [consume] -1 <= i && buf.off + i + 1 == old(buf.off) + n0 && bufwf(buf) && len(buf.buf) == old(len(buf.buf)) && buf.buf == old(buf.buf)
+//@           decreases i + 1
